@@ -18,6 +18,9 @@ Ltac zcmp :=
   | H : context [?a =? ?b] |- _ => destruct (Z.eqb_spec a b)
   end.
 
+(* split conjunctions only (never an iff, an equation or a disjunction) *)
+Ltac splits := repeat match goal with |- _ /\ _ => split end.
+
 (* ------------------------------------------------------------------ *)
 (* Z-indexed list lemmas                                              *)
 (* ------------------------------------------------------------------ *)
@@ -252,12 +255,55 @@ Proof.
 Qed.
 
 (* ------------------------------------------------------------------ *)
+(* 64-bit wrap-around and the allocation bound                        *)
+(* ------------------------------------------------------------------ *)
+Lemma alloc_max_eq : alloc_max = 140737488355328.
+Proof. reflexivity. Qed.
+
+Lemma wrap64_small x : - 9223372036854775808 <= x < 9223372036854775808 -> wrap64 x = x.
+Proof.
+  intros Hx. unfold wrap64. change (2 ^ 63) with 9223372036854775808.
+  change (2 ^ 64) with 18446744073709551616. rewrite Z.mod_small by lia. lia.
+Qed.
+
+Lemma wrap64_high x :
+  9223372036854775808 <= x < 18446744073709551616 -> wrap64 x = x - 18446744073709551616.
+Proof.
+  intros Hx. unfold wrap64. change (2 ^ 63) with 9223372036854775808.
+  change (2 ^ 64) with 18446744073709551616.
+  replace (x + 9223372036854775808)
+    with ((x + 9223372036854775808 - 18446744073709551616) + 1 * 18446744073709551616) by lia.
+  rewrite Z_mod_plus_full. rewrite Z.mod_small by lia. lia.
+Qed.
+
+Lemma wrap64_range x : - 9223372036854775808 <= wrap64 x < 9223372036854775808.
+Proof.
+  unfold wrap64. change (2 ^ 63) with 9223372036854775808.
+  change (2 ^ 64) with 18446744073709551616.
+  pose proof (Z.mod_pos_bound (x + 9223372036854775808) 18446744073709551616) as Hb. lia.
+Qed.
+
+Lemma make_ok_iff n : make_ok n = true <-> 0 <= n <= alloc_max.
+Proof. unfold make_ok. rewrite andb_true_iff, !Z.leb_le. tauto. Qed.
+
+Lemma make_ok_false_iff n : make_ok n = false <-> n < 0 \/ alloc_max < n.
+Proof.
+  destruct (make_ok n) eqn:E.
+  - apply make_ok_iff in E. split; [discriminate|lia].
+  - split; [intros _|reflexivity].
+    destruct (Z_lt_le_dec n 0) as [Hn|Hn]; [left; exact Hn|].
+    destruct (Z_lt_le_dec alloc_max n) as [Hm|Hm]; [right; exact Hm|].
+    assert (Ht : make_ok n = true) by (apply make_ok_iff; lia). congruence.
+Qed.
+
+(* ------------------------------------------------------------------ *)
 (* Structure of reachable deques                                      *)
 (* ------------------------------------------------------------------ *)
 Section DequeProofs.
   Context {T : Type} (zero : T) (minSize growMul : Z).
   Hypothesis Hmin : 1 <= minSize.
-  Hypothesis Hgrow : 2 <= growMul.
+  (* the upper bound keeps len(d.a)*growMul inside int64 for every capacity make can return *)
+  Hypothesis Hgrow : 2 <= growMul <= 32768.
 
   Notation deque := (deque T).
   Notation iter := Model.iter.
@@ -276,7 +322,13 @@ Section DequeProofs.
   Notation run := (run zero minSize growMul).
   Notation run_state := (run_state zero minSize growMul).
   Notation clean := (clean zero).
+  Notation alloc_req := (alloc_req minSize growMul).
+  Notation alloc_fails := (alloc_fails minSize growMul).
+  Notation in_budget := (in_budget minSize growMul).
   Implicit Types d : deque.
+
+  (* every buffer was returned by make *)
+  Definition capok (d : deque) : Prop := cap d <= alloc_max.
 
   (* raw index of the i-th live element *)
   Definition idx (d : deque) (i : Z) : Z :=
@@ -426,13 +478,18 @@ Section DequeProofs.
   (* ------------------------------------------------------------------ *)
   (* resize / maybe_expand / grow / shrink                              *)
   (* ------------------------------------------------------------------ *)
-  Lemma resize_ok n d : wf d -> len d <= n ->
-    wf (resize n d) /\ clean (resize n d) /\ window (resize n d) = window d /\
-    len (resize n d) = len d /\ cap (resize n d) = n /\ gen (resize n d) = gen d + 1.
+  Lemma resize_fail n d : make_ok n = false -> resize n d = Panic PAlloc.
+  Proof. intros Hmk. unfold resize. rewrite Hmk. reflexivity. Qed.
+
+  Lemma resize_ok n d : wf d -> len d <= n -> make_ok n = true ->
+    exists d', resize n d = Ok d' /\
+    wf d' /\ clean d' /\ window d' = window d /\
+    len d' = len d /\ cap d' = n /\ gen d' = gen d + 1.
   Proof.
-    intros Hwf Hn. pose proof (len_range d Hwf) as Hr.
+    intros Hwf Hn Hmk. pose proof (len_range d Hwf) as Hr.
     pose proof (window_len d Hwf) as Hwl.
-    unfold resize. set (l' := firstn (Z.to_nat n) (window d ++ zrepeat zero n)).
+    unfold resize. rewrite Hmk. cbn [negb].
+    set (l' := firstn (Z.to_nat n) (window d ++ zrepeat zero n)).
     assert (Hl' : zlen l' = n).
     { unfold l'. apply zlen_firstn. rewrite zlen_app, zlen_repeat by lia. lia. }
     assert (Hg1 : forall j, 0 <= j < len d -> zget l' j = zget (window d) j).
@@ -445,6 +502,7 @@ Section DequeProofs.
     assert (Hlen' : len d' = len d) by (unfold d'; rewrite len_mk; zcmp; lia).
     assert (Hidx : forall i, 0 <= i < len d -> idx d' i = i)
       by (intros i Hi; unfold d'; rewrite idx_mk; zcmp; lia).
+    exists d'. split; [reflexivity|].
     split; [exact Hwf'|]. split; [|split; [|split; [exact Hlen'|split; [exact Hl'|reflexivity]]]].
     - apply clean_intro. intros j Hj Hnl. change (buf d') with l'. change (cap d') with (zlen l') in Hj.
       destruct (Z.ltb_spec j (len d)) as [Hlt|Hge].
@@ -454,54 +512,144 @@ Section DequeProofs.
       rewrite Hidx by lia. change (buf d') with l'. rewrite Hg1 by lia. reflexivity.
   Qed.
 
-  Lemma maybe_expand_ok d : wf d -> clean d ->
-    wf (maybe_expand d) /\ clean (maybe_expand d) /\ window (maybe_expand d) = window d /\
-    len (maybe_expand d) = len d /\ len (maybe_expand d) < cap (maybe_expand d) /\
-    gen d <= gen (maybe_expand d).
+  (* the length maybeExpand passes to make *)
+  Definition expand_req d : Z := Z.max minSize (wrap64 (cap d * growMul)).
+
+  Lemma expand_req_val d : 0 <= cap d -> capok d ->
+    expand_req d = Z.max minSize (cap d * growMul) /\ cap d < expand_req d.
   Proof.
-    intros Hwf Hcl. pose proof (len_range d Hwf) as Hr. unfold maybe_expand.
-    destruct (Z.eqb_spec (len d) (cap d)) as [He|He].
-    - assert (Hm : cap d * 2 <= cap d * growMul) by (apply Z.mul_le_mono_nonneg_l; lia).
-      destruct (resize_ok (Z.max minSize (cap d * growMul)) d Hwf) as (H1 & H2 & H3 & H4 & H5 & H6);
-        [lia|].
-      repeat split; try assumption; lia.
-    - repeat split; try assumption; lia.
+    intros Hc0 Hc. unfold capok in Hc. rewrite alloc_max_eq in Hc. unfold expand_req.
+    assert (Hm1 : cap d * 2 <= cap d * growMul) by (apply Z.mul_le_mono_nonneg_l; lia).
+    assert (Hm2 : cap d * growMul <= 140737488355328 * 32768)
+      by (apply Z.mul_le_mono_nonneg; lia).
+    rewrite wrap64_small by lia. split; [reflexivity|]. lia.
   Qed.
 
-  Lemma grow_ok n d : wf d -> clean d ->
-    wf (grow n d) /\ clean (grow n d) /\ window (grow n d) = window d /\
-    (grow n d = d \/ gen d < gen (grow n d)).
+  Lemma maybe_expand_ok d : wf d -> clean d -> capok d ->
+    if (len d =? cap d) && negb (make_ok (expand_req d)) then maybe_expand d = Panic PAlloc
+    else exists d1, maybe_expand d = Ok d1 /\
+      wf d1 /\ clean d1 /\ capok d1 /\ window d1 = window d /\
+      len d1 = len d /\ len d1 < cap d1 /\ gen d <= gen d1 /\
+      (cap d1 = cap d \/ ((len d =? cap d) = true /\ cap d1 = expand_req d)).
   Proof.
-    intros Hwf Hcl. pose proof (len_range d Hwf) as Hr. unfold grow.
-    destruct (Z.ltb_spec (cap d - len d) n) as [Hlt|Hge].
-    - destruct (resize_ok (cap d + n) d Hwf) as (H1 & H2 & H3 & H4 & H5 & H6); [lia|].
-      repeat split; try assumption. right. lia.
-    - repeat split; try assumption. left. reflexivity.
+    intros Hwf Hcl Hck. pose proof (len_range d Hwf) as Hr. unfold maybe_expand.
+    fold (expand_req d).
+    destruct (Z.eqb_spec (len d) (cap d)) as [He|He]; cbn [andb].
+    - destruct (make_ok (expand_req d)) eqn:Hmk; cbn [negb].
+      + destruct (expand_req_val d) as [_ Hlt]; [lia|exact Hck|].
+        destruct (resize_ok (expand_req d) d Hwf) as (d1 & Hrs & H1 & H2 & H3 & H4 & H5 & H6);
+          [lia|exact Hmk|].
+        exists d1. split; [exact Hrs|]. apply make_ok_iff in Hmk. unfold capok.
+        splits; try assumption; try (right; split; [reflexivity|exact H5]); lia.
+      + apply resize_fail. exact Hmk.
+    - exists d. splits; try assumption; try reflexivity; try (left; reflexivity); lia.
   Qed.
 
-  Lemma shrink_ok n d : wf d -> clean d ->
+  (* Grow: the argument as a Go int, the requested length *)
+  Lemma alloc_req_grow n d :
+    alloc_req d (OpGrow n) =
+    if cap d - len d <? wrap64 n then Some (wrap64 (cap d + wrap64 n)) else None.
+  Proof. reflexivity. Qed.
+
+  Lemma grow_req_ge n d : wf d -> capok d -> cap d - len d < wrap64 n ->
+    make_ok (wrap64 (cap d + wrap64 n)) = true ->
+    wrap64 (cap d + wrap64 n) = cap d + wrap64 n.
+  Proof.
+    intros Hwf Hck Hlt Hmk. pose proof (len_range d Hwf) as Hr.
+    pose proof (wrap64_range n) as Hn. unfold capok in Hck. rewrite alloc_max_eq in Hck.
+    apply make_ok_iff in Hmk. rewrite alloc_max_eq in Hmk.
+    destruct (Z_lt_le_dec (cap d + wrap64 n) 9223372036854775808) as [Hs|Hs].
+    - apply wrap64_small. lia.
+    - rewrite wrap64_high in Hmk by lia. lia.
+  Qed.
+
+  (* an argument beyond alloc_max makes the allocation fail whatever the capacity is *)
+  Lemma grow_too_big_fails n d : wf d -> capok d -> grow_too_big n = true ->
+    alloc_fails d (OpGrow n) = true.
+  Proof.
+    intros Hwf Hck Hbig. pose proof (len_range d Hwf) as Hr.
+    pose proof (wrap64_range n) as Hn. unfold grow_too_big in Hbig. apply Z.ltb_lt in Hbig.
+    unfold capok in Hck. unfold Spec.alloc_fails. rewrite alloc_req_grow.
+    destruct (Z.ltb_spec (cap d - len d) (wrap64 n)) as [Hlt|Hge]; [|lia].
+    apply negb_true_iff. apply make_ok_false_iff. rewrite alloc_max_eq in *.
+    destruct (Z_lt_le_dec (cap d + wrap64 n) 9223372036854775808) as [Hs|Hs].
+    - rewrite wrap64_small by lia. lia.
+    - rewrite wrap64_high by lia. lia.
+  Qed.
+
+  Lemma grow_ok n d : wf d -> clean d -> capok d ->
+    if alloc_fails d (OpGrow n) then grow n d = Panic PAlloc
+    else exists d', grow n d = Ok d' /\
+      wf d' /\ clean d' /\ capok d' /\ window d' = window d /\
+      (d' = d \/ gen d < gen d') /\
+      (cap d' = cap d \/ alloc_req d (OpGrow n) = Some (cap d')).
+  Proof.
+    intros Hwf Hcl Hck. pose proof (len_range d Hwf) as Hr.
+    unfold Spec.alloc_fails. rewrite alloc_req_grow. unfold grow.
+    destruct (Z.ltb_spec (cap d - len d) (wrap64 n)) as [Hlt|Hge].
+    - destruct (make_ok (wrap64 (cap d + wrap64 n))) eqn:Hmk; cbn [negb].
+      + pose proof (grow_req_ge n d Hwf Hck Hlt Hmk) as Hreq.
+        destruct (resize_ok (wrap64 (cap d + wrap64 n)) d Hwf)
+          as (d' & Hrs & H1 & H2 & H3 & H4 & H5 & H6); [lia|exact Hmk|].
+        exists d'. split; [exact Hrs|]. apply make_ok_iff in Hmk. unfold capok.
+        splits; try assumption; try (right; rewrite H5; reflexivity); try (right; lia); lia.
+      + apply resize_fail. exact Hmk.
+    - exists d. splits; try assumption; try reflexivity; left; reflexivity.
+  Qed.
+
+  (* Shrink never asks for more than it already has: its allocation cannot fail *)
+  Lemma shrink_ok n d : wf d -> clean d -> capok d ->
+    alloc_fails d (OpShrink n) = false /\
     if n <? 0 then shrink n d = Panic PNeg
-    else exists d', shrink n d = Ok d' /\ wf d' /\ clean d' /\ window d' = window d /\
-                    (d' = d \/ gen d < gen d').
+    else exists d', shrink n d = Ok d' /\ wf d' /\ clean d' /\ capok d' /\ window d' = window d /\
+                    (d' = d \/ gen d < gen d') /\
+                    (cap d' = cap d \/ alloc_req d (OpShrink n) = Some (cap d')).
   Proof.
-    intros Hwf Hcl. pose proof (len_range d Hwf) as Hr. unfold shrink.
-    destruct (Z.ltb_spec n 0) as [Hn|Hn]; [reflexivity|].
+    intros Hwf Hcl Hck. pose proof (len_range d Hwf) as Hr.
+    unfold Spec.alloc_fails, Spec.alloc_req, shrink.
+    destruct (Z.ltb_spec n 0) as [Hn|Hn]; [split; reflexivity|].
     destruct (Z.ltb_spec n (cap d - len d)) as [Hlt|Hge].
-    - destruct (resize_ok (len d + n) d Hwf) as (H1 & H2 & H3 & H4 & H5 & H6); [lia|].
-      eexists. split; [reflexivity|]. repeat split; try assumption. right. lia.
-    - exists d. repeat split; try assumption. left. reflexivity.
+    - assert (Hw : wrap64 (len d + n) = len d + n).
+      { apply wrap64_small. unfold capok in Hck. rewrite alloc_max_eq in Hck. lia. }
+      assert (Hmk : make_ok (wrap64 (len d + n)) = true).
+      { apply make_ok_iff. unfold capok in Hck. lia. }
+      rewrite Hmk. split; [reflexivity|].
+      destruct (resize_ok (wrap64 (len d + n)) d Hwf) as (d' & Hrs & H1 & H2 & H3 & H4 & H5 & H6);
+        [lia|exact Hmk|].
+      exists d'. split; [exact Hrs|]. unfold capok in *.
+      splits; try assumption; try (right; rewrite H5; reflexivity); try (right; lia); lia.
+    - split; [reflexivity|]. exists d. splits; try assumption; try reflexivity; left; reflexivity.
   Qed.
 
   (* ------------------------------------------------------------------ *)
   (* push                                                               *)
   (* ------------------------------------------------------------------ *)
-  Lemma push_front_ok x d : wf d -> clean d ->
-    exists d', push_front x d = Ok d' /\ wf d' /\ clean d' /\
-               window d' = x :: window d /\ gen d < gen d'.
+  Lemma alloc_req_push_front x d :
+    alloc_req d (OpPushFront x) = if len d =? cap d then Some (expand_req d) else None.
+  Proof. reflexivity. Qed.
+
+  Lemma alloc_req_push_back x d :
+    alloc_req d (OpPushBack x) = if len d =? cap d then Some (expand_req d) else None.
+  Proof. reflexivity. Qed.
+
+  Lemma alloc_fails_push_front x d :
+    alloc_fails d (OpPushFront x) = (len d =? cap d) && negb (make_ok (expand_req d)).
+  Proof. unfold Spec.alloc_fails. rewrite alloc_req_push_front. destruct (len d =? cap d); reflexivity. Qed.
+
+  Lemma alloc_fails_push_back x d :
+    alloc_fails d (OpPushBack x) = (len d =? cap d) && negb (make_ok (expand_req d)).
+  Proof. unfold Spec.alloc_fails. rewrite alloc_req_push_back. destruct (len d =? cap d); reflexivity. Qed.
+
+  Lemma push_front_ok x d : wf d -> clean d -> capok d ->
+    if alloc_fails d (OpPushFront x) then push_front x d = Panic PAlloc
+    else exists d', push_front x d = Ok d' /\ wf d' /\ clean d' /\ capok d' /\
+               window d' = x :: window d /\ gen d < gen d' /\
+               (cap d' = cap d \/ alloc_req d (OpPushFront x) = Some (cap d')).
   Proof.
-    intros Hwf Hcl. unfold push_front.
-    destruct (maybe_expand_ok d Hwf Hcl) as (Hwf1 & Hcl1 & Hw1 & Hl1 & Hlt1 & Hg1).
-    set (d1 := maybe_expand d) in *.
+    intros Hwf Hcl Hck. rewrite alloc_fails_push_front. unfold push_front.
+    pose proof (maybe_expand_ok d Hwf Hcl Hck) as Hme.
+    destruct ((len d =? cap d) && negb (make_ok (expand_req d))); [rewrite Hme; reflexivity|].
+    destruct Hme as (d1 & Hme & Hwf1 & Hcl1 & Hck1 & Hw1 & Hl1 & Hlt1 & Hg1 & Hcap1). rewrite Hme.
     pose proof (len_range d1 Hwf1) as Hr1.
     assert (Hcap : 0 < cap d1) by lia.
     pose proof (front_range d1 Hwf1 Hcap) as Hf1.
@@ -526,8 +674,12 @@ Section DequeProofs.
     assert (Hne : forall i, 0 <= i < len d1 -> idx d1 i <> f).
     { intros i Hi Heq. rewrite <- HiS in Heq by exact Hi. rewrite <- Hi0 in Heq.
       apply idx_inj in Heq; [lia|exact Hwf'|lia|lia]. }
+    assert (Hcd : cap d' = cap d1).
+    { change (cap d') with (zlen (upd (buf d1) (Z.to_nat f) x)). apply zlen_upd. }
     exists d'. split; [reflexivity|]. split; [exact Hwf'|].
-    split; [|split; [|change (gen d') with (gen d1 + 1); lia]].
+    split; [|split; [unfold capok in *; lia|split; [|split; [change (gen d') with (gen d1 + 1); lia|]]]].
+    3: { destruct Hcap1 as [Hc|[He Hc]]; [left; lia|].
+         right. rewrite alloc_req_push_front, He, Hcd, Hc. reflexivity. }
     - apply clean_intro. intros j Hj Hnl.
       change (buf d') with (upd (buf d1) (Z.to_nat f) x).
       change (cap d') with (zlen (upd (buf d1) (Z.to_nat f) x)) in Hj.
@@ -545,13 +697,16 @@ Section DequeProofs.
         rewrite <- Hw1. apply window_get; [exact Hwf1|lia].
   Qed.
 
-  Lemma push_back_ok x d : wf d -> clean d ->
-    exists d', push_back x d = Ok d' /\ wf d' /\ clean d' /\
-               window d' = window d ++ [x] /\ gen d < gen d'.
+  Lemma push_back_ok x d : wf d -> clean d -> capok d ->
+    if alloc_fails d (OpPushBack x) then push_back x d = Panic PAlloc
+    else exists d', push_back x d = Ok d' /\ wf d' /\ clean d' /\ capok d' /\
+               window d' = window d ++ [x] /\ gen d < gen d' /\
+               (cap d' = cap d \/ alloc_req d (OpPushBack x) = Some (cap d')).
   Proof.
-    intros Hwf Hcl. unfold push_back.
-    destruct (maybe_expand_ok d Hwf Hcl) as (Hwf1 & Hcl1 & Hw1 & Hl1 & Hlt1 & Hg1).
-    set (d1 := maybe_expand d) in *.
+    intros Hwf Hcl Hck. rewrite alloc_fails_push_back. unfold push_back.
+    pose proof (maybe_expand_ok d Hwf Hcl Hck) as Hme.
+    destruct ((len d =? cap d) && negb (make_ok (expand_req d))); [rewrite Hme; reflexivity|].
+    destruct Hme as (d1 & Hme & Hwf1 & Hcl1 & Hck1 & Hw1 & Hl1 & Hlt1 & Hg1 & Hcap1). rewrite Hme.
     pose proof (len_range d1 Hwf1) as Hr1.
     assert (Hcap : 0 < cap d1) by lia.
     pose proof (front_range d1 Hwf1 Hcap) as Hf1.
@@ -579,8 +734,12 @@ Section DequeProofs.
     assert (Hne : forall i, 0 <= i < len d1 -> idx d1 i <> b).
     { intros i Hi Heq. rewrite <- Hlast in Heq. rewrite <- !Hidx in Heq.
       apply idx_inj in Heq; [lia|exact Hwf'|lia|lia]. }
+    assert (Hcd : cap d' = cap d1).
+    { change (cap d') with (zlen (upd (buf d1) (Z.to_nat b) x)). apply zlen_upd. }
     exists d'. split; [reflexivity|]. split; [exact Hwf'|].
-    split; [|split; [|change (gen d') with (gen d1 + 1); lia]].
+    split; [|split; [unfold capok in *; lia|split; [|split; [change (gen d') with (gen d1 + 1); lia|]]]].
+    3: { destruct Hcap1 as [Hc|[He Hc]]; [left; lia|].
+         right. rewrite alloc_req_push_back, He, Hcd, Hc. reflexivity. }
     - apply clean_intro. intros j Hj Hnl.
       change (buf d') with (upd (buf d1) (Z.to_nat b) x).
       change (cap d') with (zlen (upd (buf d1) (Z.to_nat b) x)) in Hj.
@@ -611,7 +770,7 @@ Section DequeProofs.
 
   Lemma pop_front_ok d : wf d -> clean d -> 0 < len d ->
     exists x d', pop_front d = Ok (x, d') /\ wf d' /\ clean d' /\
-                 window d = x :: window d' /\ gen d < gen d'.
+                 window d = x :: window d' /\ gen d < gen d' /\ cap d' = cap d.
   Proof.
     intros Hwf Hcl Hlen. unfold pop_front.
     pose proof (len_range d Hwf) as Hr.
@@ -627,7 +786,7 @@ Section DequeProofs.
       assert (Hwf' : wf d') by (apply wf_mk; lia).
       assert (Hlen' : len d' = 0) by reflexivity.
       exists x, d'. split; [reflexivity|]. split; [exact Hwf'|].
-      split; [|split; [|change (gen d') with (gen d + 1); lia]].
+      split; [|split; [|split; [change (gen d') with (gen d + 1); lia|exact Hl']]].
       + apply clean_intro. intros j Hj _. change (buf d') with l'.
         change (cap d') with (zlen l') in Hj. rewrite Hl' in Hj. unfold l'.
         destruct (Z.eq_dec (front d) j) as [He|He].
@@ -649,7 +808,7 @@ Section DequeProofs.
       { intros i Hi. rewrite Hlen' in Hi. unfold d'. rewrite idx_mk, Hl'. unfold idx, f'.
         destruct (wf_cases d Hwf) as [H2|[H2|H2]]; zcmp; lia. }
       exists x, d'. split; [reflexivity|]. split; [exact Hwf'|].
-      split; [|split; [|change (gen d') with (gen d + 1); lia]].
+      split; [|split; [|split; [change (gen d') with (gen d + 1); lia|exact Hl']]].
       + apply clean_intro. intros j Hj Hnl. change (buf d') with l'.
         change (cap d') with (zlen l') in Hj. rewrite Hl' in Hj. unfold l'.
         destruct (Z.eq_dec (front d) j) as [He|He].
@@ -670,7 +829,7 @@ Section DequeProofs.
 
   Lemma pop_back_ok d : wf d -> clean d -> 0 < len d ->
     exists x d', pop_back d = Ok (x, d') /\ wf d' /\ clean d' /\
-                 window d = window d' ++ [x] /\ gen d < gen d'.
+                 window d = window d' ++ [x] /\ gen d < gen d' /\ cap d' = cap d.
   Proof.
     intros Hwf Hcl Hlen. unfold pop_back.
     pose proof (len_range d Hwf) as Hr.
@@ -686,7 +845,7 @@ Section DequeProofs.
       assert (Hwf' : wf d') by (apply wf_mk; lia).
       assert (Hlen' : len d' = 0) by reflexivity.
       exists x, d'. split; [reflexivity|]. split; [exact Hwf'|].
-      split; [|split; [|change (gen d') with (gen d + 1); lia]].
+      split; [|split; [|split; [change (gen d') with (gen d + 1); lia|exact Hl']]].
       + apply clean_intro. intros j Hj _. change (buf d') with l'.
         change (cap d') with (zlen l') in Hj. rewrite Hl' in Hj. unfold l'.
         destruct (Z.eq_dec (back d) j) as [He|He].
@@ -708,7 +867,7 @@ Section DequeProofs.
       assert (Hidx : forall i, idx d' i = idx d i).
       { intros i. unfold d'. rewrite idx_mk, Hl'. reflexivity. }
       exists x, d'. split; [reflexivity|]. split; [exact Hwf'|].
-      split; [|split; [|change (gen d') with (gen d + 1); lia]].
+      split; [|split; [|split; [change (gen d') with (gen d + 1); lia|exact Hl']]].
       + apply clean_intro. intros j Hj Hnl. change (buf d') with l'.
         change (cap d') with (zlen l') in Hj. rewrite Hl' in Hj. unfold l'.
         destruct (Z.eq_dec (back d) j) as [He|He].
@@ -735,14 +894,14 @@ Section DequeProofs.
     match window d with
     | [] => pop_front d = Panic PEmpty
     | x :: w => exists d', pop_front d = Ok (x, d') /\ wf d' /\ clean d' /\ window d' = w /\
-                           gen d < gen d'
+                           gen d < gen d' /\ cap d' = cap d
     end.
   Proof.
     intros Hwf Hcl. pose proof (window_len d Hwf) as Hwl.
     destruct (window d) as [|x w] eqn:E.
     - apply pop_front_empty. rewrite <- Hwl. reflexivity.
     - rewrite zlen_cons in Hwl. pose proof (zlen_nonneg w) as Hw.
-      destruct (pop_front_ok d Hwf Hcl) as (x' & d' & Hp & Hwf' & Hcl' & Hwin & Hg); [lia|].
+      destruct (pop_front_ok d Hwf Hcl) as (x' & d' & Hp & Hwf' & Hcl' & Hwin & Hg & Hcp); [lia|].
       rewrite E in Hwin. inversion Hwin; subst x'. exists d'. repeat split; assumption.
   Qed.
 
@@ -750,14 +909,14 @@ Section DequeProofs.
     match rev (window d) with
     | [] => pop_back d = Panic PEmpty
     | x :: r => exists d', pop_back d = Ok (x, d') /\ wf d' /\ clean d' /\ window d' = rev r /\
-                           gen d < gen d'
+                           gen d < gen d' /\ cap d' = cap d
     end.
   Proof.
     intros Hwf Hcl. pose proof (window_len d Hwf) as Hwl.
     destruct (Z.eq_dec (len d) 0) as [H0|H0].
     - rewrite (window_nil d Hwf H0). simpl. apply pop_back_empty. exact H0.
     - pose proof (len_range d Hwf) as Hr.
-      destruct (pop_back_ok d Hwf Hcl) as (x' & d' & Hp & Hwf' & Hcl' & Hwin & Hg); [lia|].
+      destruct (pop_back_ok d Hwf Hcl) as (x' & d' & Hp & Hwf' & Hcl' & Hwin & Hg & Hcp); [lia|].
       rewrite Hwin, rev_unit. exists d'. rewrite rev_involutive. repeat split; assumption.
   Qed.
 
@@ -809,7 +968,7 @@ Section DequeProofs.
   Lemma set_spec i x d : wf d -> clean d ->
     match zset (window d) i x with
     | Some l' => exists d', set i x d = Ok d' /\ wf d' /\ clean d' /\ window d' = l' /\
-                            gen d < gen d'
+                            gen d < gen d' /\ cap d' = cap d
     | None => set i x d = Panic PIndex
     end.
   Proof.
@@ -833,7 +992,7 @@ Section DequeProofs.
         { unfold d'. rewrite len_mk, Hl'. unfold len.
           destruct (wf_cases d Hwf) as [H2|[(Hnl & H2)|(Hnl & H2)]]; [lia| |]; rewrite Hnl; reflexivity. }
         exists d'. split; [reflexivity|]. split; [exact Hwf'|].
-        split; [|split; [|change (gen d') with (gen d + 1); lia]].
+        split; [|split; [|split; [change (gen d') with (gen d + 1); lia|exact Hl']]].
         * apply clean_intro. intros j Hj Hnl. change (buf d') with l'.
           change (cap d') with (zlen l') in Hj. rewrite Hl' in Hj. unfold l'.
           rewrite Hlen' in Hnl.
@@ -943,44 +1102,72 @@ Section DequeProofs.
   (* ------------------------------------------------------------------ *)
   Definition gens_ok d (its : list iter) : Prop := Forall (fun it => it_gen it <= gen d) its.
 
-  Definition Inv (s : st) : Prop := wf (sd s) /\ clean (sd s) /\ gens_ok (sd s) (sits s).
+  Definition Inv (s : st) : Prop :=
+    wf (sd s) /\ clean (sd s) /\ capok (sd s) /\ gens_ok (sd s) (sits s).
+
+  (* the step of the ideal sequence, told whether the implementation's allocation failed *)
+  Definition sres d (o : op) : list T * out :=
+    if alloc_fails d o then (window d, OPanic) else sstep (window d) o.
 
   Ltac fin :=
     repeat split; try assumption; try reflexivity; try (left; reflexivity);
-    try (right; assumption); try (intros; assumption); try (intros; congruence).
+    try (left; assumption); try (right; assumption); try (intros; assumption);
+    try (intros; congruence).
 
-  Lemma step_seq d its o : wf d -> clean d -> seq_op o = true ->
-    exists d', step (mkSt d its) o = (mkSt d' its, snd (sstep (window d) o)) /\
-      wf d' /\ clean d' /\ window d' = fst (sstep (window d) o) /\
+  (* operations that never call make *)
+  Ltac na := cbn [Spec.alloc_fails Spec.alloc_req sstep].
+
+  Lemma step_seq d its o : wf d -> clean d -> capok d -> seq_op o = true ->
+    exists d', step (mkSt d its) o = (mkSt d' its, snd (sres d o)) /\
+      wf d' /\ clean d' /\ capok d' /\ window d' = fst (sres d o) /\
       (d' = d \/ gen d < gen d') /\
-      (adds_or_removes o = true -> snd (sstep (window d) o) <> OPanic -> gen d < gen d').
+      (adds_or_removes o = true -> snd (sres d o) <> OPanic -> gen d < gen d') /\
+      (cap d' = cap d \/ alloc_req d o = Some (cap d')) /\
+      (alloc_fails d o = true -> d' = d).
   Proof.
-    intros Hwf Hcl Hseq.
+    intros Hwf Hcl Hck Hseq.
     destruct o as [x|x| | | | |i|i x| |n|n| | |j]; try discriminate Hseq;
-      cbn [Model.step sstep sd sits adds_or_removes].
-    - destruct (push_front_ok x d Hwf Hcl) as (d' & Hp & Hwf' & Hcl' & Hw' & Hg').
-      rewrite Hp. exists d'. cbn [fst snd]. fin.
-    - destruct (push_back_ok x d Hwf Hcl) as (d' & Hp & Hwf' & Hcl' & Hw' & Hg').
-      rewrite Hp. exists d'. cbn [fst snd]. fin.
-    - pose proof (pop_front_spec d Hwf Hcl) as Hp. destruct (window d) as [|x w] eqn:Ew.
+      unfold sres; cbn [Model.step sd sits adds_or_removes].
+    - pose proof (push_front_ok x d Hwf Hcl Hck) as Hp.
+      destruct (alloc_fails d (OpPushFront x)) eqn:Ef.
       + rewrite Hp. exists d. cbn [fst snd]. fin.
-      + destruct Hp as (d' & Hp & Hwf' & Hcl' & Hw' & Hg'). rewrite Hp. exists d'. cbn [fst snd]. fin.
-    - pose proof (pop_back_spec d Hwf Hcl) as Hp. destruct (rev (window d)) as [|x r].
+      + destruct Hp as (d' & Hp & Hwf' & Hcl' & Hck' & Hw' & Hg' & Hcap').
+        rewrite Hp. exists d'. cbn [fst snd sstep]. fin.
+    - pose proof (push_back_ok x d Hwf Hcl Hck) as Hp.
+      destruct (alloc_fails d (OpPushBack x)) eqn:Ef.
       + rewrite Hp. exists d. cbn [fst snd]. fin.
-      + destruct Hp as (d' & Hp & Hwf' & Hcl' & Hw' & Hg'). rewrite Hp. exists d'. cbn [fst snd]. fin.
-    - rewrite (peek_front_spec d Hwf). exists d. destruct (window d) as [|x w]; cbn [fst snd]; fin.
-    - rewrite (peek_back_spec d Hwf). exists d. destruct (rev (window d)) as [|x r]; cbn [fst snd]; fin.
-    - rewrite (item_spec i d Hwf). exists d. destruct (zget (window d) i) as [x|]; cbn [fst snd]; fin.
-    - pose proof (set_spec i x d Hwf Hcl) as Hp. destruct (zset (window d) i x) as [l'|].
-      + destruct Hp as (d' & Hp & Hwf' & Hcl' & Hw' & Hg'). rewrite Hp. exists d'. cbn [fst snd]. fin.
+      + destruct Hp as (d' & Hp & Hwf' & Hcl' & Hck' & Hw' & Hg' & Hcap').
+        rewrite Hp. exists d'. cbn [fst snd sstep]. fin.
+    - na. pose proof (pop_front_spec d Hwf Hcl) as Hp. destruct (window d) as [|x w] eqn:Ew.
       + rewrite Hp. exists d. cbn [fst snd]. fin.
-    - exists d. cbn [fst snd]. rewrite (window_len d Hwf). fin.
-    - destruct (grow_ok n d Hwf Hcl) as (Hwf' & Hcl' & Hw' & Hg').
-      exists (grow n d). cbn [fst snd]. fin.
-    - pose proof (shrink_ok n d Hwf Hcl) as Hp. destruct (n <? 0).
+      + destruct Hp as (d' & Hp & Hwf' & Hcl' & Hw' & Hg' & Hcp'). rewrite Hp. exists d'.
+        assert (Hck' : capok d') by (unfold capok in *; lia). cbn [fst snd]. fin.
+    - na. pose proof (pop_back_spec d Hwf Hcl) as Hp. destruct (rev (window d)) as [|x r].
       + rewrite Hp. exists d. cbn [fst snd]. fin.
-      + destruct Hp as (d' & Hp & Hwf' & Hcl' & Hw' & Hg'). rewrite Hp. exists d'. cbn [fst snd]. fin.
-    - rewrite (drain_iterate d Hwf). exists d. cbn [fst snd]. fin.
+      + destruct Hp as (d' & Hp & Hwf' & Hcl' & Hw' & Hg' & Hcp'). rewrite Hp. exists d'.
+        assert (Hck' : capok d') by (unfold capok in *; lia). cbn [fst snd]. fin.
+    - na. rewrite (peek_front_spec d Hwf). exists d. destruct (window d) as [|x w]; cbn [fst snd]; fin.
+    - na. rewrite (peek_back_spec d Hwf). exists d. destruct (rev (window d)) as [|x r]; cbn [fst snd]; fin.
+    - na. rewrite (item_spec i d Hwf). exists d. destruct (zget (window d) i) as [x|]; cbn [fst snd]; fin.
+    - na. pose proof (set_spec i x d Hwf Hcl) as Hp. destruct (zset (window d) i x) as [l'|].
+      + destruct Hp as (d' & Hp & Hwf' & Hcl' & Hw' & Hg' & Hcp'). rewrite Hp. exists d'.
+        assert (Hck' : capok d') by (unfold capok in *; lia). cbn [fst snd]. fin.
+      + rewrite Hp. exists d. cbn [fst snd]. fin.
+    - na. exists d. cbn [fst snd]. rewrite (window_len d Hwf). fin.
+    - pose proof (grow_ok n d Hwf Hcl Hck) as Hp.
+      destruct (alloc_fails d (OpGrow n)) eqn:Ef.
+      + rewrite Hp. exists d. cbn [fst snd]. fin.
+      + destruct Hp as (d' & Hp & Hwf' & Hcl' & Hck' & Hw' & Hg' & Hcap'). rewrite Hp.
+        assert (Hbig : grow_too_big n = false).
+        { destruct (grow_too_big n) eqn:Eb; [|reflexivity].
+          rewrite (grow_too_big_fails n d Hwf Hck Eb) in Ef. discriminate Ef. }
+        cbn [sstep]. rewrite Hbig. exists d'. cbn [fst snd]. fin.
+    - destruct (shrink_ok n d Hwf Hcl Hck) as [Ef Hp]. rewrite Ef. cbn [sstep].
+      destruct (n <? 0).
+      + rewrite Hp. exists d. cbn [fst snd]. fin.
+      + destruct Hp as (d' & Hp & Hwf' & Hcl' & Hck' & Hw' & Hg' & Hcap'). rewrite Hp.
+        exists d'. cbn [fst snd]. fin.
+    - na. rewrite (drain_iterate d Hwf). exists d. cbn [fst snd]. fin.
   Qed.
 
   Lemma gens_ok_mono d d' its : gens_ok d its -> gen d <= gen d' -> gens_ok d' its.
@@ -991,35 +1178,45 @@ Section DequeProofs.
 
   Lemma step_inv s o : Inv s ->
     Inv (fst (step s o)) /\
-    window (sd (fst (step s o))) = fst (sstep (window (sd s)) o) /\
-    (seq_op o = true -> snd (step s o) = snd (sstep (window (sd s)) o)) /\
+    window (sd (fst (step s o))) = fst (sres (sd s) o) /\
+    (seq_op o = true -> snd (step s o) = snd (sres (sd s) o)) /\
     (sd (fst (step s o)) = sd s \/ gen (sd s) < gen (sd (fst (step s o)))) /\
     (adds_or_removes o = true -> snd (step s o) <> OPanic ->
-       gen (sd s) < gen (sd (fst (step s o))) /\ sits (fst (step s o)) = sits s).
+       gen (sd s) < gen (sd (fst (step s o))) /\ sits (fst (step s o)) = sits s) /\
+    (cap (sd (fst (step s o))) = cap (sd s) \/
+       alloc_req (sd s) o = Some (cap (sd (fst (step s o))))) /\
+    (alloc_fails (sd s) o = true -> fst (step s o) = s).
   Proof.
-    destruct s as [d its]. intros (Hwf & Hcl & Hg). cbn [sd sits] in *.
+    destruct s as [d its]. intros (Hwf & Hcl & Hck & Hg). cbn [sd sits] in *.
     destruct (seq_op o) eqn:Es.
-    - destruct (step_seq d its o Hwf Hcl Es) as (d' & Hs & Hwf' & Hcl' & Hw' & Hg' & Har).
+    - destruct (step_seq d its o Hwf Hcl Hck Es)
+        as (d' & Hs & Hwf' & Hcl' & Hck' & Hw' & Hg' & Har & Hcap' & Hfail).
       rewrite Hs. cbn [fst snd sd sits].
-      split; [|split; [exact Hw'|split; [reflexivity|split; [exact Hg'|]]]].
-      + split; [exact Hwf'|]. split; [exact Hcl'|]. cbn [sd sits].
+      split; [|split; [exact Hw'|split; [reflexivity|split; [exact Hg'|split; [|split; [exact Hcap'|]]]]]].
+      + split; [exact Hwf'|]. split; [exact Hcl'|]. split; [exact Hck'|]. cbn [sd sits].
         apply (gens_ok_mono d); [exact Hg|]. destruct Hg' as [He|Hlt]; [subst d'|]; lia.
       + intros Ha Hnp. split; [apply Har; assumption|reflexivity].
+      + intros Hf. rewrite (Hfail Hf). reflexivity.
     - destruct o as [x|x| | | | |i|i x| |n|n| | |j]; try discriminate Es.
-      + cbn [Model.step sstep sd sits fst snd adds_or_removes].
-        split; [|split; [reflexivity|split; [discriminate|split; [left; reflexivity|discriminate]]]].
-        split; [exact Hwf|]. split; [exact Hcl|]. cbn [sd sits]. apply Forall_app. split; [exact Hg|].
+      + cbn [Model.step sd sits fst snd adds_or_removes].
+        split; [|split; [reflexivity|split; [discriminate|split; [left; reflexivity|
+          split; [discriminate|split; [left; reflexivity|intros Hf; cbn in Hf; discriminate Hf]]]]]].
+        split; [exact Hwf|]. split; [exact Hcl|]. split; [exact Hck|]. cbn [sd sits].
+        apply Forall_app. split; [exact Hg|].
         constructor; [cbn; lia|constructor].
-      + cbn [Model.step sstep sd sits adds_or_removes]. destruct (nth_error its j) as [it|] eqn:En.
+      + cbn [Model.step sd sits adds_or_removes]. destruct (nth_error its j) as [it|] eqn:En.
         * pose proof (iter_next_gen d it) as Hgn.
           destruct (iter_next d it) as [r it'] eqn:Ei. cbn [fst snd sd sits] in *.
-          split; [|split; [reflexivity|split; [discriminate|split; [left; reflexivity|discriminate]]]].
-          split; [exact Hwf|]. split; [exact Hcl|]. cbn [sd sits]. apply Forall_upd; [exact Hg|].
+          split; [|split; [reflexivity|split; [discriminate|split; [left; reflexivity|
+            split; [discriminate|split; [left; reflexivity|intros Hf; cbn in Hf; discriminate Hf]]]]]].
+          split; [exact Hwf|]. split; [exact Hcl|]. split; [exact Hck|]. cbn [sd sits].
+          apply Forall_upd; [exact Hg|].
           rewrite Hgn. unfold gens_ok in Hg. rewrite Forall_forall in Hg. apply Hg.
           apply nth_error_In with (n := j). exact En.
         * cbn [fst snd sd sits].
-          split; [|split; [reflexivity|split; [discriminate|split; [left; reflexivity|discriminate]]]].
-          split; [exact Hwf|]. split; [exact Hcl|]. exact Hg.
+          split; [|split; [reflexivity|split; [discriminate|split; [left; reflexivity|
+            split; [discriminate|split; [left; reflexivity|intros Hf; cbn in Hf; discriminate Hf]]]]]].
+          split; [exact Hwf|]. split; [exact Hcl|]. split; [exact Hck|]. exact Hg.
   Qed.
 
   (* ------------------------------------------------------------------ *)
@@ -1027,33 +1224,186 @@ Section DequeProofs.
   (* ------------------------------------------------------------------ *)
   Lemma Inv_st0 : Inv (@st0 T).
   Proof.
-    split; [|split].
+    split; [|split; [|split]].
     - cbn. split; reflexivity.
     - intros j Hj. cbn in Hj. lia.
+    - unfold capok. rewrite alloc_max_eq. cbn. lia.
     - constructor.
   Qed.
 
-  Lemma run_state_inv ops : forall s, Inv s ->
-    Inv (run_state s ops) /\ window (sd (run_state s ops)) = srun_state (window (sd s)) ops.
+  Lemma run_state_Inv ops : forall s, Inv s -> Inv (run_state s ops).
   Proof.
-    induction ops as [|o ops IH]; intros s HI; cbn [Model.run_state srun_state].
-    - split; [exact HI|reflexivity].
-    - destruct (step_inv s o HI) as (HI' & Hw & _). destruct (IH _ HI') as [H1 H2].
-      split; [exact H1|]. rewrite H2, Hw. reflexivity.
-  Qed.
-
-  Lemma run_refines ops : forall s, Inv s -> forallb seq_op ops = true ->
-    run s ops = srun (window (sd s)) ops.
-  Proof.
-    induction ops as [|o ops IH]; intros s HI Hall; cbn [Model.run srun]; [reflexivity|].
-    cbn [forallb] in Hall. apply andb_true_iff in Hall. destruct Hall as [Ho Hall].
-    destruct (step_inv s o HI) as (HI' & Hw & Hout & _). specialize (Hout Ho).
-    destruct (step s o) as [s' r]. destruct (sstep (window (sd s)) o) as [l' r'].
-    cbn [fst snd] in *. subst r' l'. f_equal. apply IH; assumption.
+    induction ops as [|o ops IH]; intros s HI; cbn [Model.run_state]; [exact HI|].
+    apply IH. apply (step_inv s o HI).
   Qed.
 
   Lemma reach_inv ops : Inv (run_state st0 ops).
-  Proof. apply run_state_inv. exact Inv_st0. Qed.
+  Proof. apply run_state_Inv. exact Inv_st0. Qed.
+
+  (* ---- histories within the allocation budget: the ideal sequence alone decides ---- *)
+  Definition Bud (w : Z) d : Prop :=
+    0 <= w /\ len d <= w /\ cap d <= Z.max minSize (growMul * w).
+
+  Lemma op_cost_nonneg (o : op) : 0 <= op_cost o.
+  Proof.
+    destruct o as [x|x| | | | |i|i x| |n|n| | |j]; cbn [op_cost]; try lia.
+    destruct (Z.ltb_spec 0 (wrap64 n)) as [Hp|Hp]; cbn [andb]; [|lia].
+    destruct (negb (grow_too_big n)); lia.
+  Qed.
+
+  Lemma cost_nonneg (ops : list op) : 0 <= cost ops.
+  Proof.
+    induction ops as [|o ops IH]; cbn [cost]; [lia|]. pose proof (op_cost_nonneg o). lia.
+  Qed.
+
+  Lemma cost_app (ops1 ops2 : list op) : cost (ops1 ++ ops2) = cost ops1 + cost ops2.
+  Proof. induction ops1 as [|o ops1 IH]; cbn [cost app]; [reflexivity|]. rewrite IH. lia. Qed.
+
+  Lemma bmax_mono w w' : 0 <= w <= w' ->
+    Z.max minSize (growMul * w) <= Z.max minSize (growMul * w').
+  Proof.
+    intros Hw. assert (Hm : growMul * w <= growMul * w') by (apply Z.mul_le_mono_nonneg_l; lia). lia.
+  Qed.
+
+  Lemma bmax_ge w : 0 <= w -> w <= Z.max minSize (growMul * w).
+  Proof.
+    intros Hw. assert (Hm : 1 * w <= growMul * w) by (apply Z.mul_le_mono_nonneg_r; lia). lia.
+  Qed.
+
+  Lemma sstep_len_cost (l : list T) (o : op) : zlen (fst (sstep l o)) <= zlen l + op_cost o.
+  Proof.
+    pose proof (op_cost_nonneg o) as Hc.
+    destruct o as [x|x| | | | |i|i x| |n|n| | |j]; cbn [sstep op_cost] in *.
+    - cbn [fst]. rewrite zlen_cons. lia.
+    - cbn [fst]. rewrite zlen_snoc. lia.
+    - destruct l as [|x l']; cbn [fst]; [lia|]. rewrite zlen_cons. lia.
+    - destruct (rev l) as [|x r] eqn:Er; cbn [fst]; [lia|].
+      apply (f_equal (@rev T)) in Er. rewrite rev_involutive in Er. subst l. cbn [rev].
+      rewrite zlen_snoc. lia.
+    - destruct l; cbn [fst]; lia.
+    - destruct (rev l); cbn [fst]; lia.
+    - destruct (zget l i); cbn [fst]; lia.
+    - unfold zset. destruct ((i <? 0) || (zlen l <=? i)); cbn [fst]; [lia|]. rewrite zlen_upd. lia.
+    - cbn [fst]. lia.
+    - destruct (grow_too_big n); cbn [fst]; lia.
+    - destruct (n <? 0); cbn [fst]; lia.
+    - cbn [fst]. lia.
+    - cbn [fst]. lia.
+    - cbn [fst]. lia.
+  Qed.
+
+  Lemma step_budget s o w : Inv s -> Bud w (sd s) ->
+    Z.max minSize (growMul * (w + op_cost o)) <= alloc_max ->
+    sres (sd s) o = sstep (window (sd s)) o /\ Bud (w + op_cost o) (sd (fst (step s o))).
+  Proof.
+    intros HI HB Hbud.
+    destruct (step_inv s o HI) as (HI' & Hw & _ & _ & _ & Hcap & _).
+    destruct HI as (Hwf & Hcl & Hck & Hg). destruct HI' as (Hwf' & _ & Hck' & _).
+    set (d := sd s) in *. set (d' := sd (fst (step s o))) in *.
+    pose proof (window_len d Hwf) as Hwl. pose proof (window_len d' Hwf') as Hwl'.
+    rewrite Hw in Hwl'.
+    destruct HB as (Hw0 & Hlen & Hcapb). pose proof (len_range d Hwf) as Hr.
+    pose proof (op_cost_nonneg o) as Hc0.
+    assert (Hmono : Z.max minSize (growMul * w) <= Z.max minSize (growMul * (w + op_cost o)))
+      by (apply bmax_mono; lia).
+    assert (Hge : w + op_cost o <= Z.max minSize (growMul * (w + op_cost o)))
+      by (apply bmax_ge; lia).
+    pose proof (cap_nonneg d) as Hcd0.
+    unfold capok in Hck, Hck'.
+    (* the size maybeExpand asks for, when the deque is full *)
+    assert (Hexp : len d = cap d -> 0 <= expand_req d <= Z.max minSize (growMul * w)).
+    { intros He. destruct (expand_req_val d) as [Hv Hlt]; [lia|exact Hck|]. rewrite Hv.
+      assert (Hm : cap d * growMul <= growMul * w)
+        by (rewrite (Z.mul_comm (cap d)); apply Z.mul_le_mono_nonneg_l; lia).
+      lia. }
+    (* the size Grow asks for, when the argument is not beyond alloc_max *)
+    assert (Hgr : forall n, cap d - len d < wrap64 n -> grow_too_big n = false ->
+              op_cost (OpGrow n : op) = 2 * wrap64 n /\
+              wrap64 (cap d + wrap64 n) = cap d + wrap64 n).
+    { intros n Hlt Hb. unfold grow_too_big in Hb. apply Z.ltb_ge in Hb. rewrite alloc_max_eq in *.
+      split.
+      - cbn [op_cost]. unfold grow_too_big. rewrite alloc_max_eq.
+        destruct (Z.ltb_spec 0 (wrap64 n)) as [Hp|Hp]; [|lia].
+        destruct (Z.ltb_spec 140737488355328 (wrap64 n)) as [Hq|Hq]; [lia|]. reflexivity.
+      - apply wrap64_small. lia. }
+    assert (Hs : sres d o = sstep (window d) o).
+    { unfold sres. destruct (alloc_fails d o) eqn:Ef; [|reflexivity].
+      destruct o as [x|x| | | | |i|i x| |n|n| | |j];
+        try (cbn in Ef; discriminate Ef).
+      - exfalso. cbn [op_cost] in *.
+        rewrite alloc_fails_push_front in Ef. apply andb_true_iff in Ef. destruct Ef as [E1 E2].
+        apply Z.eqb_eq in E1. apply negb_true_iff, make_ok_false_iff in E2.
+        specialize (Hexp E1). lia.
+      - exfalso. cbn [op_cost] in *.
+        rewrite alloc_fails_push_back in Ef. apply andb_true_iff in Ef. destruct Ef as [E1 E2].
+        apply Z.eqb_eq in E1. apply negb_true_iff, make_ok_false_iff in E2.
+        specialize (Hexp E1). lia.
+      - cbn [sstep]. destruct (grow_too_big n) eqn:Eb; [reflexivity|]. exfalso.
+        unfold Spec.alloc_fails in Ef. rewrite alloc_req_grow in Ef.
+        destruct (Z.ltb_spec (cap d - len d) (wrap64 n)) as [Hlt|Hge']; [|discriminate Ef].
+        apply negb_true_iff, make_ok_false_iff in Ef.
+        destruct (Hgr n Hlt Eb) as [Hcost Hwr]. rewrite Hwr in Ef. rewrite Hcost in *. lia.
+      - exfalso. destruct (shrink_ok n d Hwf Hcl Hck) as [Ef' _]. congruence. }
+    split; [exact Hs|].
+    split; [lia|]. split.
+    - rewrite <- Hwl', Hs. pose proof (sstep_len_cost (window d) o) as Hl. lia.
+    - destruct Hcap as [Hc|Hc]; [lia|].
+      destruct o as [x|x| | | | |i|i x| |n|n| | |j]; try (cbn in Hc; discriminate Hc);
+        cbn [op_cost] in *.
+      + rewrite alloc_req_push_front in Hc.
+        destruct (Z.eqb_spec (len d) (cap d)) as [He|He]; [|discriminate Hc].
+        injection Hc as Hc'. specialize (Hexp He). lia.
+      + rewrite alloc_req_push_back in Hc.
+        destruct (Z.eqb_spec (len d) (cap d)) as [He|He]; [|discriminate Hc].
+        injection Hc as Hc'. specialize (Hexp He). lia.
+      + rewrite alloc_req_grow in Hc.
+        destruct (Z.ltb_spec (cap d - len d) (wrap64 n)) as [Hlt|Hge']; [|discriminate Hc].
+        injection Hc as Hc'. pose proof (cap_nonneg d') as Hd0.
+        assert (Hmk : make_ok (wrap64 (cap d + wrap64 n)) = true)
+          by (apply make_ok_iff; rewrite Hc'; lia).
+        pose proof (grow_req_ge n d Hwf Hck Hlt Hmk) as Hreq.
+        assert (Eb : grow_too_big n = false).
+        { unfold grow_too_big. apply Z.ltb_ge. lia. }
+        destruct (Hgr n Hlt Eb) as [Hcost _]. cbn [op_cost]. rewrite Hcost in *. lia.
+      + cbn [Spec.alloc_req] in Hc. destruct (Z.ltb_spec n 0) as [Hn|Hn]; [discriminate Hc|].
+        destruct (Z.ltb_spec n (cap d - len d)) as [Hlt|Hge']; [|discriminate Hc].
+        injection Hc as Hc'. rewrite alloc_max_eq in *. rewrite wrap64_small in Hc' by lia. lia.
+  Qed.
+
+  Lemma Bud_st0 : Bud 0 (sd (@st0 T)).
+  Proof. unfold Bud. cbn. lia. Qed.
+
+  Lemma run_budget ops : forall s w, Inv s -> Bud w (sd s) ->
+    Z.max minSize (growMul * (w + cost ops)) <= alloc_max ->
+    window (sd (run_state s ops)) = srun_state (window (sd s)) ops /\
+    Bud (w + cost ops) (sd (run_state s ops)) /\
+    (forallb seq_op ops = true -> run s ops = srun (window (sd s)) ops).
+  Proof.
+    induction ops as [|o ops IH]; intros s w HI HB Hbud; cbn [Model.run_state srun_state Model.run srun cost] in *.
+    - split; [reflexivity|]. split; [|reflexivity]. replace (w + 0) with w by lia. exact HB.
+    - pose proof (op_cost_nonneg o) as Hc0. pose proof (cost_nonneg ops) as Hc1.
+      assert (Hw0 : 0 <= w) by apply HB.
+      assert (Hb1 : Z.max minSize (growMul * (w + op_cost o)) <= alloc_max).
+      { pose proof (bmax_mono (w + op_cost o) (w + (op_cost o + cost ops))) as Hm. lia. }
+      destruct (step_budget s o w HI HB Hb1) as [Hs HB'].
+      destruct (step_inv s o HI) as (HI' & Hw & Hout & _).
+      rewrite Z.add_assoc in Hbud |- *.
+      destruct (IH _ _ HI' HB' Hbud) as (H1 & H2 & H3).
+      rewrite Hs in Hw, Hout.
+      split; [rewrite H1, Hw; reflexivity|]. split; [exact H2|].
+      intros Hall. cbn [forallb] in Hall. apply andb_true_iff in Hall. destruct Hall as [Ho Hall].
+      specialize (Hout Ho). specialize (H3 Hall).
+      destruct (step s o) as [s' r]. destruct (sstep (window (sd s)) o) as [l' r'].
+      cbn [fst snd] in *. subst r' l'. f_equal. exact H3.
+  Qed.
+
+  Lemma reach_budget ops : in_budget ops ->
+    window (sd (run_state st0 ops)) = srun_state [] ops /\
+    Bud (cost ops) (sd (run_state st0 ops)) /\
+    (forallb seq_op ops = true -> run st0 ops = srun [] ops).
+  Proof.
+    intros Hb. apply (run_budget ops st0 0 Inv_st0 Bud_st0). exact Hb.
+  Qed.
 
   Lemma sstep_panic (l : list T) o : seq_op o = true ->
     (snd (sstep l o) = OPanic <-> must_panic l o = true).
@@ -1077,7 +1427,7 @@ Section DequeProofs.
         apply orb_true_iff. destruct E as [E|E]; [left; apply Z.ltb_lt|right; apply Z.leb_le]; exact E.
     - unfold zset. destruct ((i <? 0) || (zlen l <=? i)); cbn; split; congruence.
     - cbn; split; discriminate.
-    - cbn; split; discriminate.
+    - destruct (grow_too_big n); cbn; split; congruence.
     - destruct (n <? 0); cbn; split; congruence.
     - cbn; split; discriminate.
   Qed.
@@ -1093,43 +1443,106 @@ Section DequeProofs.
 
   (* ---- C04 ---- *)
   Lemma refinement_sec : forall ops,
-      forallb seq_op ops = true -> run st0 ops = srun [] ops.
+      forallb seq_op ops = true -> in_budget ops -> run st0 ops = srun [] ops.
   Proof using All.
-    intros ops Hall. apply (run_refines ops st0 Inv_st0 Hall).
+    intros ops Hall Hb. apply (reach_budget ops Hb). exact Hall.
   Qed.
 
-  Lemma abs_sec : forall ops, window (sd (run_state st0 ops)) = srun_state [] ops.
+  Lemma abs_sec : forall ops, in_budget ops ->
+      window (sd (run_state st0 ops)) = srun_state [] ops.
   Proof using All.
-    intros ops. apply (run_state_inv ops st0 Inv_st0).
+    intros ops Hb. apply (reach_budget ops Hb).
+  Qed.
+
+  (* all histories, no budget: one more operation from any reachable state *)
+  Lemma step_exact_sec : forall ops o,
+      seq_op o = true ->
+      let s := run_state st0 ops in
+      if alloc_fails (sd s) o then step s o = (s, OPanic)
+      else snd (step s o) = snd (sstep (window (sd s)) o) /\
+           window (sd (fst (step s o))) = fst (sstep (window (sd s)) o).
+  Proof using All.
+    intros ops o Hs s. pose proof (reach_inv ops) as HI. fold s in HI.
+    destruct (step_inv s o HI) as (_ & Hw & Hout & _ & _ & _ & Hfail). specialize (Hout Hs).
+    unfold sres in Hw, Hout. destruct (alloc_fails (sd s) o).
+    - specialize (Hfail eq_refl). cbn [snd] in Hout.
+      destruct (step s o) as [s' r]. cbn [fst snd] in *. subst s' r. reflexivity.
+    - split; assumption.
   Qed.
 
   Lemma grow_shrink_preserve_sec : forall ops n,
       let d := sd (run_state st0 ops) in
-      window (grow n d) = window d /\
+      (forall d', grow n d = Ok d' -> window d' = window d) /\
       (forall d', shrink n d = Ok d' -> window d' = window d) /\
-      (shrink n d = Panic PNeg <-> n < 0).
+      (shrink n d = Panic PNeg <-> n < 0) /\
+      (0 <= n -> exists d', shrink n d = Ok d').
   Proof using All.
-    intros ops n d. destruct (reach_inv ops) as (Hwf & Hcl & _). fold d in Hwf, Hcl.
-    pose proof (shrink_ok n d Hwf Hcl) as Hs.
-    split; [apply grow_ok; assumption|]. split.
+    intros ops n d. destruct (reach_inv ops) as (Hwf & Hcl & Hck & _). fold d in Hwf, Hcl, Hck.
+    destruct (shrink_ok n d Hwf Hcl Hck) as [_ Hs].
+    pose proof (grow_ok n d Hwf Hcl Hck) as Hgr.
+    split; [|split; [|split]].
+    - intros d' Hd'. destruct (alloc_fails d (OpGrow n)).
+      + rewrite Hgr in Hd'. discriminate Hd'.
+      + destruct Hgr as (d'' & Hgr & _ & _ & _ & Hw & _). rewrite Hgr in Hd'.
+        injection Hd' as Hd'. subst d''. exact Hw.
     - intros d' Hd'. destruct (Z.ltb_spec n 0) as [Hn|Hn].
       + rewrite Hs in Hd'. discriminate Hd'.
-      + destruct Hs as (d'' & Hs & _ & _ & Hw & _). rewrite Hs in Hd'.
-        inversion Hd'; subst d''. exact Hw.
+      + destruct Hs as (d'' & Hs & _ & _ & _ & Hw & _). rewrite Hs in Hd'.
+        injection Hd' as Hd'. subst d''. exact Hw.
     - destruct (Z.ltb_spec n 0) as [Hn|Hn].
       + split; [intros _; exact Hn|intros _; exact Hs].
       + destruct Hs as (d'' & Hs & _). rewrite Hs. split; [discriminate|lia].
+    - intros Hn. destruct (Z.ltb_spec n 0) as [Hn'|_]; [lia|].
+      destruct Hs as (d'' & Hs & _). exists d''. exact Hs.
+  Qed.
+
+  (* Grow and the allocator *)
+  Lemma grow_alloc_sec : forall ops n,
+      let s := run_state st0 ops in
+      let d := sd s in
+      (grow n d = Panic PAlloc <-> alloc_fails d (OpGrow n) = true) /\
+      (alloc_fails d (OpGrow n) = true -> step s (OpGrow n) = (s, OPanic)) /\
+      (alloc_fails d (OpGrow n) = false -> exists d', grow n d = Ok d' /\ window d' = window d) /\
+      (grow_too_big n = true -> alloc_fails d (OpGrow n) = true).
+  Proof using All.
+    intros ops n s d. pose proof (reach_inv ops) as HI. fold s in HI.
+    destruct HI as (Hwf & Hcl & Hck & _). fold d in Hwf, Hcl, Hck.
+    pose proof (grow_ok n d Hwf Hcl Hck) as Hgr.
+    split; [|split; [|split]].
+    - destruct (alloc_fails d (OpGrow n)).
+      + split; [reflexivity|intros _; exact Hgr].
+      + destruct Hgr as (d' & Hgr & _). rewrite Hgr. split; discriminate.
+    - intros Hf. cbn [Model.step]. fold d. rewrite Hf in Hgr. rewrite Hgr. reflexivity.
+    - intros Hf. rewrite Hf in Hgr. destruct Hgr as (d' & Hgr & _ & _ & _ & Hw & _).
+      exists d'. split; assumption.
+    - apply grow_too_big_fails; assumption.
   Qed.
 
   Lemma panics_exact_sec : forall ops o,
       seq_op o = true ->
       let s := run_state st0 ops in
-      (snd (step s o) = OPanic <-> must_panic (window (sd s)) o = true) /\
-      (snd (step s o) = OPanic -> fst (step s o) = s).
+      (snd (step s o) = OPanic <->
+         must_panic (window (sd s)) o = true \/ alloc_fails (sd s) o = true) /\
+      (snd (step s o) = OPanic -> fst (step s o) = s) /\
+      (in_budget (ops ++ [o]) ->
+         (snd (step s o) = OPanic <-> must_panic (window (sd s)) o = true)).
   Proof using All.
     intros ops o Hs s. pose proof (reach_inv ops) as HI. fold s in HI.
-    destruct (step_inv s o HI) as (_ & _ & Hout & _).
-    split; [rewrite (Hout Hs); apply sstep_panic; exact Hs|apply step_panic_same; exact Hs].
+    destruct (step_inv s o HI) as (_ & _ & Hout & _). specialize (Hout Hs).
+    split; [|split].
+    - rewrite Hout. unfold sres. destruct (alloc_fails (sd s) o); cbn [snd].
+      + split; [intros _; right; reflexivity|reflexivity].
+      + rewrite (sstep_panic _ o Hs). split; [intros Hm; left; exact Hm|].
+        intros [Hm|Hm]; [exact Hm|discriminate Hm].
+    - apply step_panic_same. exact Hs.
+    - intros Hb. unfold Spec.in_budget in Hb. rewrite cost_app in Hb. cbn [cost] in Hb.
+      rewrite Z.add_0_r in Hb.
+      assert (Hb0 : in_budget ops).
+      { unfold Spec.in_budget. pose proof (op_cost_nonneg o) as Hc0. pose proof (cost_nonneg ops) as Hc1.
+        pose proof (bmax_mono (cost ops) (cost ops + op_cost o)) as Hm. lia. }
+      destruct (reach_budget ops Hb0) as (_ & HB & _). fold s in HB.
+      destruct (step_budget s o (cost ops) HI HB Hb) as [Hsr _].
+      rewrite Hout, Hsr. apply sstep_panic. exact Hs.
   Qed.
 
   Lemma no_retention_sec : forall ops, clean (sd (run_state st0 ops)).
@@ -1153,9 +1566,9 @@ Section DequeProofs.
       fst (iter_next (sd (fst (step s o))) it) = Panic PModified.
   Proof using All.
     intros ops o it s Ha Hnp Hin. pose proof (reach_inv ops) as HI. fold s in HI.
-    destruct (step_inv s o HI) as (_ & _ & _ & _ & Har).
+    destruct (step_inv s o HI) as (_ & _ & _ & _ & Har & _).
     destruct (Har Ha Hnp) as [Hlt Hsits]. rewrite Hsits in Hin.
-    destruct HI as (_ & _ & Hg). unfold gens_ok in Hg. rewrite Forall_forall in Hg.
+    destruct HI as (_ & _ & _ & Hg). unfold gens_ok in Hg. rewrite Forall_forall in Hg.
     specialize (Hg it Hin). cbn beta in Hg.
     rewrite iter_next_stale by lia. reflexivity.
   Qed.
@@ -1183,10 +1596,10 @@ Section DequeProofs.
   Lemma gstep_inv s gs o : GInv s gs -> GInv (fst (step s o)) (ghost_step s gs o).
   Proof.
     intros [HI HF]. pose proof (step_inv s o HI) as (HI' & _). split; [exact HI'|].
-    destruct s as [d its]. destruct HI as (Hwf & Hcl & Hg). cbn [sd sits] in *.
+    destruct s as [d its]. destruct HI as (Hwf & Hcl & Hck & Hg). cbn [sd sits] in *.
     destruct (seq_op o) eqn:Es.
     - rewrite (ghost_step_seq _ gs o Es).
-      destruct (step_seq d its o Hwf Hcl Es) as (d' & Hs & _ & _ & _ & Hg' & _).
+      destruct (step_seq d its o Hwf Hcl Hck Es) as (d' & Hs & _ & _ & _ & _ & Hg' & _).
       rewrite Hs. cbn [fst sd sits].
       apply (Forall2_weaken (ghost_rel d)); [|exact HF].
       intros it g Hrel. apply (ghost_rel_mono d); assumption.
@@ -1245,53 +1658,81 @@ End DequeProofs.
 (* Properties/C15_deque.v)                                             *)
 (* ------------------------------------------------------------------ *)
 Lemma deque_refinement {T : Type} (zero : T) (minSize growMul : Z)
-  (Hmin : 1 <= minSize) (Hgrow : 2 <= growMul) :
-  forall ops, forallb seq_op ops = true ->
+  (Hmin : 1 <= minSize) (Hgrow : 2 <= growMul <= 32768) :
+  forall ops, forallb seq_op ops = true -> in_budget minSize growMul ops ->
               run zero minSize growMul st0 ops = srun [] ops.
 Proof. exact (@refinement_sec T zero minSize growMul Hmin Hgrow). Qed.
 
 Lemma deque_abs {T : Type} (zero : T) (minSize growMul : Z)
-  (Hmin : 1 <= minSize) (Hgrow : 2 <= growMul) :
-  forall ops, window (sd (run_state zero minSize growMul st0 ops)) = srun_state [] ops.
+  (Hmin : 1 <= minSize) (Hgrow : 2 <= growMul <= 32768) :
+  forall ops, in_budget minSize growMul ops ->
+              window (sd (run_state zero minSize growMul st0 ops)) = srun_state [] ops.
 Proof. exact (@abs_sec T zero minSize growMul Hmin Hgrow). Qed.
 
-Lemma deque_grow_shrink_preserve {T : Type} (zero : T) (minSize growMul : Z)
-  (Hmin : 1 <= minSize) (Hgrow : 2 <= growMul) :
-  forall ops n,
-    let d := sd (run_state zero minSize growMul st0 ops) in
-    window (grow zero n d) = window d /\
-    (forall d', shrink zero n d = Ok d' -> window d' = window d) /\
-    (shrink zero n d = Panic PNeg <-> n < 0).
-Proof. exact (@grow_shrink_preserve_sec T zero minSize growMul Hmin Hgrow). Qed.
-
-Lemma deque_panics_exact {T : Type} (zero : T) (minSize growMul : Z)
-  (Hmin : 1 <= minSize) (Hgrow : 2 <= growMul) :
+Lemma deque_step_exact {T : Type} (zero : T) (minSize growMul : Z)
+  (Hmin : 1 <= minSize) (Hgrow : 2 <= growMul <= 32768) :
   forall ops o,
     seq_op o = true ->
     let s := run_state zero minSize growMul st0 ops in
-    (snd (step zero minSize growMul s o) = OPanic <-> must_panic (window (sd s)) o = true) /\
-    (snd (step zero minSize growMul s o) = OPanic -> fst (step zero minSize growMul s o) = s).
+    if alloc_fails minSize growMul (sd s) o then step zero minSize growMul s o = (s, OPanic)
+    else snd (step zero minSize growMul s o) = snd (sstep (window (sd s)) o) /\
+         window (sd (fst (step zero minSize growMul s o))) = fst (sstep (window (sd s)) o).
+Proof. exact (@step_exact_sec T zero minSize growMul Hmin Hgrow). Qed.
+
+Lemma deque_grow_shrink_preserve {T : Type} (zero : T) (minSize growMul : Z)
+  (Hmin : 1 <= minSize) (Hgrow : 2 <= growMul <= 32768) :
+  forall ops n,
+    let d := sd (run_state zero minSize growMul st0 ops) in
+    (forall d', grow zero n d = Ok d' -> window d' = window d) /\
+    (forall d', shrink zero n d = Ok d' -> window d' = window d) /\
+    (shrink zero n d = Panic PNeg <-> n < 0) /\
+    (0 <= n -> exists d', shrink zero n d = Ok d').
+Proof. exact (@grow_shrink_preserve_sec T zero minSize growMul Hmin Hgrow). Qed.
+
+Lemma deque_grow_alloc {T : Type} (zero : T) (minSize growMul : Z)
+  (Hmin : 1 <= minSize) (Hgrow : 2 <= growMul <= 32768) :
+  forall ops n,
+    let s := run_state zero minSize growMul st0 ops in
+    let d := sd s in
+    (grow zero n d = Panic PAlloc <-> alloc_fails minSize growMul d (OpGrow n) = true) /\
+    (alloc_fails minSize growMul d (OpGrow n) = true ->
+       step zero minSize growMul s (OpGrow n) = (s, OPanic)) /\
+    (alloc_fails minSize growMul d (OpGrow n) = false ->
+       exists d', grow zero n d = Ok d' /\ window d' = window d) /\
+    (grow_too_big n = true -> alloc_fails minSize growMul d (OpGrow n) = true).
+Proof. exact (@grow_alloc_sec T zero minSize growMul Hmin Hgrow). Qed.
+
+Lemma deque_panics_exact {T : Type} (zero : T) (minSize growMul : Z)
+  (Hmin : 1 <= minSize) (Hgrow : 2 <= growMul <= 32768) :
+  forall ops o,
+    seq_op o = true ->
+    let s := run_state zero minSize growMul st0 ops in
+    (snd (step zero minSize growMul s o) = OPanic <->
+       must_panic (window (sd s)) o = true \/ alloc_fails minSize growMul (sd s) o = true) /\
+    (snd (step zero minSize growMul s o) = OPanic -> fst (step zero minSize growMul s o) = s) /\
+    (in_budget minSize growMul (ops ++ [o]) ->
+       (snd (step zero minSize growMul s o) = OPanic <-> must_panic (window (sd s)) o = true)).
 Proof. exact (@panics_exact_sec T zero minSize growMul Hmin Hgrow). Qed.
 
 Lemma deque_no_retention {T : Type} (zero : T) (minSize growMul : Z)
-  (Hmin : 1 <= minSize) (Hgrow : 2 <= growMul) :
+  (Hmin : 1 <= minSize) (Hgrow : 2 <= growMul <= 32768) :
   forall ops, clean zero (sd (run_state zero minSize growMul st0 ops)).
 Proof. exact (@no_retention_sec T zero minSize growMul Hmin Hgrow). Qed.
 
 Lemma deque_iter_unchanged {T : Type} (zero : T) (minSize growMul : Z)
-  (Hmin : 1 <= minSize) (Hgrow : 2 <= growMul) :
+  (Hmin : 1 <= minSize) (Hgrow : 2 <= growMul <= 32768) :
   forall ops,
     let d := sd (run_state zero minSize growMul st0 ops) in
     drain (S (Z.to_nat (len d))) d (iterate d) = Some (Ok (window d)).
 Proof. exact (@iter_unchanged_sec T zero minSize growMul Hmin Hgrow). Qed.
 
 Lemma deque_iter_ghost_ok {T : Type} (zero : T) (minSize growMul : Z)
-  (Hmin : 1 <= minSize) (Hgrow : 2 <= growMul) :
+  (Hmin : 1 <= minSize) (Hgrow : 2 <= growMul <= 32768) :
   forall ops, Forall ghost_ok (snd (grun zero minSize growMul st0 [] ops)).
 Proof. exact (@iter_ghost_ok_sec T zero minSize growMul Hmin Hgrow). Qed.
 
 Lemma deque_iter_add_remove_panics {T : Type} (zero : T) (minSize growMul : Z)
-  (Hmin : 1 <= minSize) (Hgrow : 2 <= growMul) :
+  (Hmin : 1 <= minSize) (Hgrow : 2 <= growMul <= 32768) :
   forall ops o it,
     let s := run_state zero minSize growMul st0 ops in
     adds_or_removes o = true ->
@@ -1299,3 +1740,23 @@ Lemma deque_iter_add_remove_panics {T : Type} (zero : T) (minSize growMul : Z)
     In it (sits (fst (step zero minSize growMul s o))) ->
     fst (iter_next (sd (fst (step zero minSize growMul s o))) it) = Panic PModified.
 Proof. exact (@iter_add_remove_panics_sec T zero minSize growMul Hmin Hgrow). Qed.
+
+(* ------------------------------------------------------------------ *)
+(* The broken variant "resize writes front, back, gen before make":    *)
+(* after a recovered panic the contents differ.  Desired statement     *)
+(* (false for grow_commit_first, true for grow by deque_grow_alloc):   *)
+(*   forall reachable d and n, snd (grow_commit_first n d) = true ->   *)
+(*     window (fst (grow_commit_first n d)) = window d                 *)
+(* ------------------------------------------------------------------ *)
+Lemma deque_grow_commit_first_refuted :
+  exists (ops : list (op Z)) (n : Z),
+    let d := sd (run_state 0 16 2 st0 ops) in
+    snd (grow_commit_first 0 n d) = true /\
+    window (fst (grow_commit_first 0 n d)) <> window d /\
+    gen (fst (grow_commit_first 0 n d)) <> gen d /\
+    grow 0 n d = Panic PAlloc.
+Proof.
+  exists [OpPushBack 1; OpPushBack 2; OpPushBack 3; OpPopFront; OpPushFront 4; OpPushFront 5; OpPushFront 6],
+         9223372036854775807.
+  vm_compute. repeat split; discriminate.
+Qed.
